@@ -306,7 +306,8 @@ pub fn case_hugeslice(va: &dyn VariantApi, big: &[u8], room: Option<u32>) -> Res
         });
         (g.processed_len(), o)
     };
-    let cuts = [0usize, 1, 3, 1 << 31, 0, 2, (1 << 31) + 5];
+    let half = big.len() / 2 - 8;
+    let cuts = [0usize, 1, 3, half, 0, 2, half / 2 + 5];
     // the two feeds run concurrently (each is one pass over 4 GiB)
     let (whole, split) = std::thread::scope(|sc| {
         let w = sc.spawn(|| {
@@ -372,6 +373,17 @@ fn run_hugeslice(ctx: &Ctx) -> CheckResult {
             jobs.push((i, None));
         }
     }
+    // mid-size single slices from FRESH generators (2^28 + 1000 and 2^29 + 7 bytes, ~3 s a pass):
+    // an update that internally proceeds block by block must account for every block
+    let mids: Vec<(usize, usize)> = (0..vs.len()).map(|i| (i, if (i + ctx.seed as usize) % 2 == 0 { (1usize << 28) + 1000 } else { (1usize << 29) + 7 })).collect();
+    let mid_res = par_map(ctx.threads, &mids, |&(i, n)| case_hugeslice(vs[i], &big[..n], None));
+    for (&(i, n), r) in mids.iter().zip(mid_res) {
+        ctx.ev.borrow_mut().evaluations += 68;
+        ctx.ev.borrow_mut().nontrivial_enumerated += 1;
+        if let Err(m) = r {
+            return Err(ctx.violation("midslice", m, json!({"variant": vs[i].v().name, "n": n})));
+        }
+    }
     let res = par_map(ctx.threads, &jobs, |&(i, room)| case_hugeslice(vs[i], &big, room));
     for (&(i, room), r) in jobs.iter().zip(res) {
         ctx.ev.borrow_mut().evaluations += 68;
@@ -389,6 +401,11 @@ fn run_hugeslice(ctx: &Ctx) -> CheckResult {
 }
 
 pub fn replay(ctx: &Ctx, check: &str, case: &Value) -> Result<(), String> {
+    if check == "midslice" {
+        let va = super::codec::variant_of(ctx.api, case)?;
+        let n = case.get("n").and_then(|x| x.as_u64()).unwrap_or(1 << 28) as usize;
+        return case_hugeslice(va, &vec![0u8; n], None);
+    }
     if check == "hugeslice" {
         let va = super::codec::variant_of(ctx.api, case)?;
         let room = case.get("room").and_then(|x| x.as_u64()).map(|x| x as u32);
